@@ -162,8 +162,9 @@ type SliceV struct {
 }
 type StrV struct{ s string }
 type IfaceV struct {
-	typ types.Type
-	v   Value
+	typ  types.Type
+	v    Value
+	nilc *Cond // when non-nil: the condition under which this interface value is nil (merged nil / non-nil)
 }
 type FuncV struct {
 	fn   *ssa.Function
@@ -221,6 +222,7 @@ type Machine struct {
 	concObs   map[string]string
 	entryFn   *ssa.Function
 	dump      map[string]any
+	loopAssume map[string]int
 	invDefs   []invDef
 	preexistBelow int
 	cuts      []cutSpec
@@ -580,14 +582,31 @@ func (m *Machine) binop(op token.Token, x, y Value, t types.Type, xt types.Type,
 		return VBool{m.cbool(!same)}
 	case IfaceV:
 		b := y.(IfaceV)
-		eq := a.typ == nil && b.typ == nil
-		if a.typ != nil && b.typ != nil {
-			eq = fmt.Sprint(a.v) == fmt.Sprint(b.v)
+		isNil := func(v IfaceV) (*Cond, bool) { // (condition, known)
+			if v.typ == nil {
+				return m.cbool(true), true
+			}
+			if v.nilc != nil {
+				return v.nilc, true
+			}
+			return m.cbool(false), true
 		}
-		if op == token.EQL {
-			return VBool{m.cbool(eq)}
+		var c *Cond
+		switch {
+		case a.typ == nil || b.typ == nil:
+			// comparison with nil
+			o := a
+			if a.typ == nil {
+				o = b
+			}
+			c, _ = isNil(o)
+		default:
+			c = m.cbool(fmt.Sprint(a.v) == fmt.Sprint(b.v) && a.typ == b.typ)
 		}
-		return VBool{m.cbool(!eq)}
+		if op == token.NEQ {
+			c = cNot(c)
+		}
+		return VBool{c}
 	case ArrayV:
 		b := y.(ArrayV)
 		c := m.cbool(true)
@@ -650,6 +669,29 @@ func (m *Machine) binopInt(op token.Token, a, b *Lin, t types.Type, pos token.Po
 		}
 		_, rr := m.divmod(a, mk)
 		return VInt{lin: rr}
+	case token.XOR, token.AND_NOT:
+		if op == token.XOR && a.isConst() && a.c.Sign() == 0 {
+			return VInt{lin: b}
+		}
+		if b.isConst() && b.c.Sign() == 0 {
+			return VInt{lin: a}
+		}
+		if !a.isConst() || !b.isConst() {
+			panic("int mode: symbolic " + op.String())
+		}
+		w, _, _ := intInfo(t)
+		mk := mask(w)
+		x, y := new(big.Int).And(a.c, mk), new(big.Int).And(b.c, mk)
+		var rr *big.Int
+		if op == token.XOR {
+			rr = new(big.Int).Xor(x, y)
+		} else {
+			rr = new(big.Int).AndNot(x, y)
+		}
+		if _, signed, _ := intInfo(t); signed && rr.Bit(w-1) == 1 {
+			rr.Sub(rr, new(big.Int).Lsh(big.NewInt(1), uint(w)))
+		}
+		return VInt{lin: linConst(rr)}
 	case token.QUO, token.REM:
 		if !a.isConst() || !b.isConst() {
 			panic("int mode: symbolic division")
@@ -705,6 +747,18 @@ func (m *Machine) binopInt(op token.Token, a, b *Lin, t types.Type, pos token.Po
 		return VBool{cCmp("<=", b, a)}
 	default:
 		panic("int mode: unsupported op " + op.String())
+	}
+	// unsigned arithmetic wraps by definition (mod 2^w); signed overflow is an obligation
+	if w, signed, ok := intInfo(t); ok && !signed {
+		mod := new(big.Int).Lsh(big.NewInt(1), uint(w))
+		if r.isConst() {
+			return VInt{lin: linConst(new(big.Int).Mod(r.c, mod))}
+		}
+		if lo, hi := m.interval(r); lo != nil && lo.Sign() >= 0 && hi.Cmp(mod) < 0 {
+			return VInt{lin: r}
+		}
+		_, rem := m.divmod(r, mod)
+		return VInt{lin: rem}
 	}
 	m.rangeObl(r, t, op.String(), pos)
 	return VInt{lin: r}
